@@ -13,6 +13,6 @@
 (***************************************************************************)
 EXTENDS Integers, Rat
 Z(d, c) == Norm(5 * d, c)                       \* probit of the failure probability
-Triples == {<<0, 4, 4>>, <<0, 10, 10>>, <<3, 4, 5>>, <<4, 3, 5>>, <<6, 8, 10>>, <<5, 12, 13>>, <<12, 5, 13>>, <<8, 15, 17>>, <<20, 21, 29>>}
+Triples == {<<0, 4, 4>>, <<0, 10, 10>>, <<3, 4, 5>>, <<4, 3, 5>>, <<6, 8, 10>>, <<5, 12, 13>>, <<12, 5, 13>>, <<8, 15, 17>>, <<20, 21, 29>>, <<24, 7, 25>>, <<7, 24, 25>>}
 IsTriple(t) == t[1] * t[1] + t[2] * t[2] = t[3] * t[3]
 =============================================================================
